@@ -258,3 +258,20 @@ def _make_set(i, items, node):
 
 
 TRUSTED["set(list)"] = "len(set(xs)) = number of distinct values"
+
+
+@model("numpy.split", "split(a, k) with an integer k: k equal consecutive sections (ValueError unless len % k == 0)")
+def _split(i, args, kw, node, fr):
+    a, k = args[0], args[1]
+    if not isinstance(k, int) or a.ndim != 1:
+        raise Unsupported("np.split with symbolic section count / 2-D", node)
+    from ..engine import PyRaise
+    n = to_z3(a.shape[0], Int)
+    part = i.ctx.fresh("section_len", Int)
+    if i.ctx.decide(n % k != 0):
+        raise PyRaise(ExcVal("ValueError"), node)
+    i.ctx.assume(z3.And(part >= 0, part * k == n))
+    out = []
+    for c in range(k):
+        out.append(define1(i, part, a.elem_sort, (lambda kk, _c=c: z3.Select(a.data, kk + _c * part)), "section", a.dtype))
+    return PyList(out)
